@@ -54,6 +54,8 @@ Variable form : P -> Qc -> qm * qv * qv.
 Definition fA (p : P) (t : Qc) : qm := fst (fst (form p t)).
 Definition fb (p : P) (t : Qc) : qv := snd (fst (form p t)).
 Definition fic (p : P) (t : Qc) : qv := snd (form p t).
+(* the source as it enters a step on n nodes: a scalar / one-element source is broadcast *)
+Definition fbn (p : P) (t : Qc) (n : nat) : qv := bc n (fb p t).
 
 (* the documented explicit step *)
 Definition euler_fwd (A : qm) (b u : qv) (dt : Qc) : qv := qvadd u (qvscale dt (qvadd (qmatvec A u) b)).
@@ -64,13 +66,14 @@ Lemma fe_loop_spec p : forall rest t u ls,
   forall k, (k < length rest)%nat ->
     length (nth k (u :: ls) []) = length u /\
     length (nth k ls []) = length u /\
-    wf_sys (length u) (fA p (nth k (t :: rest) 0)) (fb p (nth k (t :: rest) 0)) = true /\
-    nth k ls [] = euler_fwd (fA p (nth k (t :: rest) 0)) (fb p (nth k (t :: rest) 0)) (nth k (u :: ls) [])
+    wf_sys (length u) (fA p (nth k (t :: rest) 0)) (fbn p (nth k (t :: rest) 0) (length u)) = true /\
+    nth k ls [] = euler_fwd (fA p (nth k (t :: rest) 0)) (fbn p (nth k (t :: rest) 0) (length u)) (nth k (u :: ls) [])
                             (nth k rest 0 - nth k (t :: rest) 0).
 Proof.
   induction rest as [|t' rest IH]; intros t u ls H; simpl in H.
   - inversion H; subst. split; [reflexivity|]. intros k Hk; simpl in Hk; lia.
-  - unfold fA, fb. destruct (form p t) as [[A b] c] eqn:Ef.
+  - unfold fbn, fA, fb. destruct (form p t) as [[A b0] c] eqn:Ef. cbn zeta in H.
+    set (b := bc (length u) b0) in *.
     destruct (wf_sys (length u) A b) eqn:Ew; [|discriminate].
     destruct (fe_loop P form p t' rest (fe_step A b u (t' - t))) as [ls'|e] eqn:El; [|discriminate].
     inversion H; subst ls. clear H.
@@ -80,7 +83,7 @@ Proof.
     intros [|k] Hk.
     + cbn [nth]. rewrite Ef. cbn [fst snd]. repeat split; auto.
     + simpl in Hk. specialize (IHk k ltac:(lia)). rewrite Elen in IHk.
-      cbn [nth]. unfold fA, fb in IHk. exact IHk.
+      cbn [nth]. unfold fbn, fA, fb in IHk. exact IHk.
 Qed.
 
 (* forward Euler: every stored level satisfies u_{k+1} = u_k + (t_{k+1}-t_k) (A(p,t_k) u_k + b(p,t_k)),
@@ -90,8 +93,10 @@ Theorem forward_euler Q p times levels info :
   info = None /\ length levels = length times /\
   nth 0 levels [] = fic p (nth 0 times 0) /\
   forall k, (S k < length times)%nat ->
+    length (nth k levels []) = length (nth 0 levels []) /\
     nth (S k) levels [] =
-      euler_fwd (fA p (nth k times 0)) (fb p (nth k times 0)) (nth k levels []) (nth (S k) times 0 - nth k times 0).
+      euler_fwd (fA p (nth k times 0)) (fbn p (nth k times 0) (length (nth 0 levels []))) (nth k levels [])
+                (nth (S k) times 0 - nth k times 0).
 Proof.
   unfold td_solve. destruct times as [|t0 rest]; [discriminate|].
   destruct (form p t0) as [[A0 b0] ic] eqn:E0. cbn [effective_method].
@@ -100,23 +105,23 @@ Proof.
   destruct (fe_loop_spec _ _ _ _ _ El) as [Hl Hk].
   split; [reflexivity|]. split; [simpl; lia|]. split.
   - cbn [nth]. unfold fic. rewrite E0. reflexivity.
-  - intros k Hlt. simpl in Hlt. destruct (Hk k ltac:(lia)) as [_ [_ [_ Hs]]].
-    cbn [nth]. exact Hs.
+  - intros k Hlt. simpl in Hlt. destruct (Hk k ltac:(lia)) as [Hl0 [_ [_ Hs]]].
+    cbn [nth]. split; [exact Hl0 | exact Hs].
 Qed.
 
 (* it is defined whenever the time grid is non-empty and every assembled system has the size of the initial condition *)
 Lemma fe_loop_defined p : forall rest t u,
-  (forall s, wf_sys (length u) (fA p s) (fb p s) = true) -> exists ls, fe_loop P form p t rest u = Ok ls.
+  (forall s, wf_sys (length u) (fA p s) (fbn p s (length u)) = true) -> exists ls, fe_loop P form p t rest u = Ok ls.
 Proof.
   induction rest as [|t' rest IH]; intros t u Hw; simpl; [eexists; reflexivity|].
-  pose proof (Hw t) as Hwt. unfold fA, fb in Hwt. destruct (form p t) as [[A b] c]. cbn [fst snd] in Hwt. rewrite Hwt.
-  destruct (fe_step_spec A b u (t' - t) Hwt) as [_ El].
-  destruct (IH t' (fe_step A b u (t' - t))) as [ls Hls]; [rewrite El; exact Hw|].
+  pose proof (Hw t) as Hwt. unfold fbn, fA, fb in Hwt. destruct (form p t) as [[A b0] c]. cbn [fst snd] in Hwt. cbn zeta. rewrite Hwt.
+  destruct (fe_step_spec A (bc (length u) b0) u (t' - t) Hwt) as [_ El].
+  destruct (IH t' (fe_step A (bc (length u) b0) u (t' - t))) as [ls Hls]; [rewrite El; exact Hw|].
   rewrite Hls. eexists; reflexivity.
 Qed.
 
 Theorem forward_euler_defined Q p t0 rest :
-  (forall s, wf_sys (length (fic p t0)) (fA p s) (fb p s) = true) ->
+  (forall s, wf_sys (length (fic p t0)) (fA p s) (fbn p s (length (fic p t0))) = true) ->
   exists levels, td_solve P I solver form Q MFwd (Some p) (t0 :: rest) = Ok (levels, None).
 Proof.
   intros Hw. unfold td_solve. unfold fic in Hw. destruct (form p t0) as [[A0 b0] ic] eqn:E0. cbn [snd] in Hw.
@@ -124,8 +129,8 @@ Proof.
 Qed.
 
 (* ---- backward Euler ---- *)
-Definition be_M (p : P) (t1 : Qc) (u : qv) (dt : Qc) : qm := fst (be_system (fA p t1) (fb p t1) u dt).
-Definition be_r (p : P) (t1 : Qc) (u : qv) (dt : Qc) : qv := snd (be_system (fA p t1) (fb p t1) u dt).
+Definition be_M (p : P) (t1 : Qc) (u : qv) (dt : Qc) : qm := fst (be_system (fA p t1) (fbn p t1 (length u)) u dt).
+Definition be_r (p : P) (t1 : Qc) (u : qv) (dt : Qc) : qv := snd (be_system (fA p t1) (fbn p t1 (length u)) u dt).
 
 Lemma be_loop_spec p : forall rest k0 t u info0 ls infoE,
   be_loop P I solver form p k0 t rest u info0 = Ok (ls, infoE) ->
@@ -134,13 +139,14 @@ Lemma be_loop_spec p : forall rest k0 t u info0 ls infoE,
   forall k, (k < length rest)%nat ->
     let tk := nth k (t :: rest) 0 in let tk1 := nth k rest 0 in let uk := nth k (u :: ls) [] in
     length uk = length u /\ length (nth k ls []) = length u /\
-    wf_sys (length u) (fA p tk1) (fb p tk1) = true /\
+    wf_sys (length u) (fA p tk1) (fbn p tk1 (length u)) = true /\
     nth k ls [] = sret_sol (solver (k0 + k)%nat (be_M p tk1 uk (tk1 - tk)) (be_r p tk1 uk (tk1 - tk))) /\
     (S k = length rest -> infoE = snd (split_ret (solver (k0 + k)%nat (be_M p tk1 uk (tk1 - tk)) (be_r p tk1 uk (tk1 - tk))))).
 Proof.
   induction rest as [|t' rest IH]; intros k0 t u info0 ls infoE H; simpl in H.
   - inversion H; subst. split; [reflexivity|]. split; [reflexivity|]. intros k Hk; simpl in Hk; lia.
-  - destruct (form p t') as [[A b] c] eqn:Ef.
+  - destruct (form p t') as [[A b0] c] eqn:Ef. cbn zeta in H.
+    set (b := bc (length u) b0) in *.
     destruct (wf_sys (length u) A b) eqn:Ew; [|discriminate].
     unfold solve_linear_system in H.
     destruct (split_ret (solver k0 (msub (eye (length u)) (mscale (t' - t) A)) (qvadd u (qvscale (t' - t) b)))) as [u' i'] eqn:Es.
@@ -150,12 +156,12 @@ Proof.
     destruct (IH _ _ _ _ _ _ Eb) as [IHl [IHnil IHk]].
     split; [simpl; lia|]. split; [discriminate|].
     assert (HM : be_M p t' u (t' - t) = msub (eye (length u)) (mscale (t' - t) A)).
-    { unfold be_M, be_system, fA, fb. rewrite Ef. reflexivity. }
+    { unfold be_M, be_system, fbn, fA, fb. rewrite Ef. reflexivity. }
     assert (Hr : be_r p t' u (t' - t) = qvadd u (qvscale (t' - t) b)).
-    { unfold be_r, be_system, fA, fb. rewrite Ef. reflexivity. }
+    { unfold be_r, be_system, fbn, fA, fb. rewrite Ef. reflexivity. }
     intros [|k] Hk.
     + cbn [nth]. rewrite HM, Hr. replace (k0 + 0)%nat with k0 by lia.
-      unfold fA, fb. rewrite Ef. cbn [fst snd].
+      unfold fbn, fA, fb. rewrite Ef. cbn [fst snd]. fold b.
       split; [reflexivity|]. split; [exact El|]. split; [exact Ew|]. split.
       * unfold sret_sol. rewrite Es. reflexivity.
       * intros Hlast. simpl in Hlast. assert (rest = []) by (destruct rest; simpl in *; [reflexivity | lia]).
@@ -179,10 +185,12 @@ Theorem backward_euler Q p times levels info :
     let tk := nth k times 0 in let tk1 := nth (S k) times 0 in let dt := tk1 - tk in
     let uk := nth k levels [] in let uk1 := nth (S k) levels [] in
     let M := be_M p tk1 uk dt in let r := be_r p tk1 uk dt in
+    let n := length (nth 0 levels []) in
+    length uk = n /\ length uk1 = n /\ wf_sys n (fA p tk1) (fbn p tk1 n) = true /\
     uk1 = sret_sol (solver k M r) /\
     (S (S k) = length times -> info = snd (split_ret (solver k M r))) /\
     (qmatvec M (sret_sol (solver k M r)) = r ->
-       qvsub uk1 (qvscale dt (qmatvec (fA p tk1) uk1)) = qvadd uk (qvscale dt (fb p tk1))).
+       qvsub uk1 (qvscale dt (qmatvec (fA p tk1) uk1)) = qvadd uk (qvscale dt (fbn p tk1 n))).
 Proof.
   unfold td_solve. destruct times as [|t0 rest]; [discriminate|].
   destruct (form p t0) as [[A0 b0] ic] eqn:E0. cbn [effective_method].
@@ -200,10 +208,12 @@ Proof.
     cbn zeta. change (nth (S k) (t0 :: rest) 0) with (nth k rest 0).
     change (nth (S k) (ic :: ls) []) with (nth k ls []).
     replace (0 + k)%nat with k in * by lia.
+    change (nth 0 (ic :: ls) []) with ic.
+    split; [exact K1|]. split; [exact K2|]. split; [exact K3|].
     split; [exact K4|]. split.
     + intros Hlast. apply K5. simpl in Hlast. simpl. lia.
-    + intros Hlaw. rewrite <- K4 in Hlaw.
-      destruct (be_system_spec (fA p (nth k rest 0)) (fb p (nth k rest 0)) (nth k (ic :: ls) [])
+    + intros Hlaw. rewrite <- K4 in Hlaw. rewrite <- K1.
+      destruct (be_system_spec (fA p (nth k rest 0)) (fbn p (nth k rest 0) (length (nth k (ic :: ls) []))) (nth k (ic :: ls) [])
                                (nth k rest 0 - nth k (t0 :: rest) 0) (nth k ls [])) as [S1 S2].
       * rewrite K1. exact K3.
       * rewrite K1, K2. reflexivity.
@@ -273,7 +283,7 @@ Theorem observe_restriction G times T levels u :
   td_observe Q obsmap interp2 G times [T] levels =
     match apply_obsmap obsmap (A1 u) with Ok b => Ok (false, squeeze b) | Er e => Er e end.
 Proof.
-  intros Hg HT Hu. unfold td_observe. rewrite Hg, (time_test_final _ _ HT), Hu. simpl.
+  intros Hg HT Hu. unfold td_observe. rewrite Hg, (time_test_final _ _ HT), Hu. cbn [andb orb negb length Nat.eqb].
   destruct (apply_obsmap obsmap (A1 u)); reflexivity.
 Qed.
 
@@ -296,10 +306,16 @@ Proof.
   - apply qc_eqb_eq. symmetry. apply H2. exact Ht.
 Qed.
 
-(* otherwise: the interpolation routine on (grid_sol, time_steps, solution) at (grid_obs, time_obs), then the
-   observation map, squeezed only for a single observation time *)
-Theorem observe_interp G gs go times tobs levels :
-  g_eq G && time_test Q times tobs = false -> g_sol G = Some gs -> g_obs G = Some go ->
+Lemma coincide_none_code G times tobs levels :
+  q_spline_route Q = true -> coincide_restriction Q G times tobs levels = None.
+Proof. intros H. unfold coincide_restriction. rewrite H. reflexivity. Qed.
+
+(* otherwise, unless the (repaired) code restricts a fully coinciding request: the interpolation routine on
+   (grid_sol, time_steps, solution) at (grid_obs, time_obs), then the observation map, squeezed only for a single
+   observation time *)
+Theorem observe_interp_general G gs go times tobs levels :
+  g_eq G && time_test Q times tobs = false -> coincide_restriction Q G times tobs levels = None ->
+  g_sol G = Some gs -> g_obs G = Some go ->
   td_observe Q obsmap interp2 G times tobs levels =
     match interp2 gs times levels go tobs with
     | Er e => Er e
@@ -309,10 +325,180 @@ Theorem observe_interp G gs go times tobs levels :
               end
     end.
 Proof.
-  intros Hb Hs Ho. unfold td_observe. rewrite Hb, Hs, Ho. simpl.
+  intros Hb Hc Hs Ho. unfold td_observe. rewrite Hb, Hc, Hs, Ho. cbn [orb negb].
   destruct (interp2 gs times levels go tobs); reflexivity.
 Qed.
+
+Theorem observe_interp G gs go times tobs levels :
+  q_spline_route Q = true ->
+  g_eq G && time_test Q times tobs = false -> g_sol G = Some gs -> g_obs G = Some go ->
+  td_observe Q obsmap interp2 G times tobs levels =
+    match interp2 gs times levels go tobs with
+    | Er e => Er e
+    | Ok m => match apply_obsmap obsmap (A2 m) with
+              | Er e => Er e
+              | Ok b => Ok (true, if (length tobs =? 1)%nat then squeeze b else b)
+              end
+    end.
+Proof. intros Hq Hb. apply observe_interp_general; [exact Hb | apply coincide_none_code; exact Hq]. Qed.
+
+(* the repaired route: a request all of whose nodes and times are stored ones is answered by the stored values, no
+   interpolation routine involved *)
+Theorem observe_coinciding G times tobs levels m :
+  g_eq G && time_test Q times tobs = false -> coincide_restriction Q G times tobs levels = Some m ->
+  td_observe Q obsmap interp2 G times tobs levels =
+    match apply_obsmap obsmap (A2 m) with
+    | Er e => Er e
+    | Ok b => Ok (false, if (length tobs =? 1)%nat then squeeze b else b)
+    end.
+Proof.
+  intros Hb Hc. unfold td_observe. rewrite Hb, Hc. cbn [orb negb].
+  destruct (apply_obsmap obsmap (A2 m)); reflexivity.
+Qed.
 End ObserveThm.
+
+(* ---- what the restriction of a coinciding request contains ---- *)
+Lemma index_of_spec x l a : index_of x l = Some a -> nth_error l a = Some x.
+Proof.
+  revert a; induction l as [|y l IH]; intros a H; simpl in H; [discriminate|].
+  destruct (qc_eqb x y) eqn:E.
+  - inversion H; subst. apply qc_eqb_eq in E. subst. reflexivity.
+  - destruct (index_of x l) as [a'|] eqn:E'; [|discriminate]. inversion H; subst. simpl. apply IH. reflexivity.
+Qed.
+
+Lemma index_of_complete x l : In x l -> exists a, index_of x l = Some a.
+Proof.
+  induction l as [|y l IH]; intros H; simpl in *; [contradiction|].
+  destruct (qc_eqb x y) eqn:E; [eexists; reflexivity|].
+  destruct H as [H|H].
+  - subst. assert (qc_eqb x x = true) by (apply qc_eqb_eq; reflexivity). congruence.
+  - destruct (IH H) as [a Ha]. rewrite Ha. eexists; reflexivity.
+Qed.
+
+Lemma opt_all_spec {A B} (f : A -> option B) (l : list A) (r : list B) :
+  opt_all (map f l) = Some r ->
+  length r = length l /\ forall i x, nth_error l i = Some x -> exists y, nth_error r i = Some y /\ f x = Some y.
+Proof.
+  revert r; induction l as [|a l IH]; intros r H; simpl in H.
+  - inversion H; subst. split; [reflexivity|]. intros i x Hx. destruct i; discriminate.
+  - destruct (f a) as [b|] eqn:Ea; [|discriminate].
+    destruct (opt_all (map f l)) as [r'|] eqn:Er; [|discriminate]. inversion H; subst.
+    destruct (IH r' eq_refl) as [Hl Hi]. split; [simpl; lia|].
+    intros [|i] x Hx; simpl in Hx.
+    + inversion Hx; subst. exists b. split; [reflexivity | exact Ea].
+    + apply Hi. exact Hx.
+Qed.
+
+Lemma nth_error_nth_qc (l : qv) i x : nth_error l i = Some x -> nth i l 0 = x.
+Proof. revert i; induction l as [|y l IH]; intros [|i] H; simpl in *; try discriminate; [congruence | apply IH; exact H]. Qed.
+
+(* unequal grids, every observation node a solution node, every observation time a time step: entry (i, j) of the
+   observation is the stored value of node a_i at time level b_j, where grid_sol[a_i] = grid_obs[i] and
+   time_steps[b_j] = time_obs[j] -- exactly, whatever the interpolation routine would do *)
+Theorem coinciding_entries Q G gs go times tobs levels m :
+  g_eq G = false -> g_sol G = Some gs -> g_obs G = Some go ->
+  coincide_restriction Q G times tobs levels = Some m ->
+  length m = length go /\
+  forall i j x t, nth_error go i = Some x -> nth_error tobs j = Some t ->
+    exists a b, nth_error gs a = Some x /\ nth_error times b = Some t /\
+                nth j (nth i m []) 0 = nth a (nth b levels []) 0.
+Proof.
+  intros Hg Hs Ho Hc. unfold coincide_restriction in Hc. destruct (q_spline_route Q); [discriminate|].
+  unfold coincide_rows in Hc. rewrite Hg, Hs, Ho in Hc.
+  destruct (opt_all (map (fun x => index_of x gs) go)) as [rows|] eqn:Er; [|discriminate].
+  unfold coincide_cols in Hc. destruct (opt_all (map (fun t => index_of t times) tobs)) as [cols|] eqn:Ec; [|discriminate].
+  inversion Hc; subst m. clear Hc.
+  destruct (opt_all_spec _ _ _ Er) as [Lr Hr]. destruct (opt_all_spec _ _ _ Ec) as [Lc Hcs].
+  split; [unfold restrict_to; rewrite map_length; exact Lr|].
+  intros i j x t Hx Ht.
+  destruct (Hr i x Hx) as [a [Ha Hia]]. destruct (Hcs j t Ht) as [b [Hb Hjb]].
+  exists a, b. split; [apply index_of_spec; exact Hia|]. split; [apply index_of_spec; exact Hjb|].
+  unfold restrict_to.
+  assert (E1 : nth i (map (fun a0 => map (fun b0 => nth a0 (nth b0 levels []) 0) cols) rows) []
+               = map (fun b0 => nth a (nth b0 levels []) 0) cols).
+  { clear - Ha. revert i Ha; induction rows as [|r rows IH]; intros [|i] H; simpl in *; try discriminate.
+    - inversion H; subst. reflexivity.
+    - apply IH. exact H. }
+  rewrite E1. clear - Hb.
+  revert j Hb; induction cols as [|c cols IH]; intros [|j] H; simpl in *; try discriminate.
+  - inversion H; subst. reflexivity.
+  - apply IH. exact H.
+Qed.
+
+(* the repaired route is taken exactly when it can be: every node found, every time found *)
+Theorem coinciding_defined Q G gs go times tobs levels :
+  q_spline_route Q = false -> g_eq G = false -> g_sol G = Some gs -> g_obs G = Some go ->
+  (forall x, In x go -> In x gs) -> (forall t, In t tobs -> In t times) ->
+  exists m, coincide_restriction Q G times tobs levels = Some m.
+Proof.
+  intros Hq Hg Hs Ho Hx Ht. unfold coincide_restriction, coincide_rows, coincide_cols. rewrite Hq, Hg, Hs, Ho.
+  assert (A1 : forall (l ref : qv), (forall x, In x l -> In x ref) -> exists r, opt_all (map (fun x => index_of x ref) l) = Some r).
+  { induction l as [|x l IH]; intros ref H; simpl; [eexists; reflexivity|].
+    destruct (index_of_complete x ref (H x (or_introl eq_refl))) as [a Ha]. rewrite Ha.
+    destruct (IH ref (fun y Hy => H y (or_intror Hy))) as [r Hr]. rewrite Hr. eexists; reflexivity. }
+  destruct (A1 go gs Hx) as [rows Hr]. destruct (A1 tobs times Ht) as [cols Hc]. rewrite Hr, Hc. eexists; reflexivity.
+Qed.
+
+(* ---- the law assumed of RectBivariateSpline: a tensor product of two one-dimensional interpolants, each exact at
+   its nodes.  Consequences on each axis and in the mixed case. ---- *)
+Definition exact1 (ix : qv -> qv -> qv -> qv) : Prop :=
+  forall g v pts, length v = length g ->
+    length (ix g v pts) = length pts /\
+    forall i a x, nth_error pts i = Some x -> nth_error g a = Some x -> nth i (ix g v pts) 0 = nth a v 0.
+
+(* first along space (every time level at the observation nodes), then along time (every observation node's series) *)
+Definition tensor_interp (ix it : qv -> qv -> qv -> qv) (gs ts : qv) (sol : list qv) (go to : qv) : qm :=
+  map (fun i => it ts (map (fun level => nth i (ix gs level go) 0) sol) to) (seq 0 (length go)).
+
+Lemma nth_map_seq {A} (f : nat -> A) n i d : (i < n)%nat -> nth i (map f (seq 0 n)) d = f i.
+Proof.
+  intros H. rewrite (nth_indep _ d (f 0%nat)) by (rewrite map_length, seq_length; exact H).
+  rewrite (map_nth f (seq 0 n) 0%nat i). rewrite seq_nth by exact H. reflexivity.
+Qed.
+
+Lemma nth_error_lt {A} (l : list A) i x : nth_error l i = Some x -> (i < length l)%nat.
+Proof. intros H. apply nth_error_Some. congruence. Qed.
+
+Theorem tensor_interp_nodes ix it gs ts sol go to :
+  exact1 ix -> exact1 it -> length sol = length ts -> Forall (fun level => length level = length gs) sol ->
+  let m := tensor_interp ix it gs ts sol go to in
+  length m = length go /\
+  (* a coinciding space node: the row is the time interpolation of that node's stored series *)
+  (forall i a x, nth_error go i = Some x -> nth_error gs a = Some x ->
+     nth i m [] = it ts (map (fun level => nth a level 0) sol) to) /\
+  (* a coinciding time: the column is the space interpolation of that stored level *)
+  (forall i j b t, (i < length go)%nat -> nth_error to j = Some t -> nth_error ts b = Some t ->
+     nth j (nth i m []) 0 = nth i (ix gs (nth b sol []) go) 0) /\
+  (* both: the stored value *)
+  (forall i j a b x t, nth_error go i = Some x -> nth_error gs a = Some x ->
+     nth_error to j = Some t -> nth_error ts b = Some t ->
+     nth j (nth i m []) 0 = nth a (nth b sol []) 0).
+Proof.
+  intros Hx Ht Hl Hw m.
+  assert (Lser : forall f : qv -> Qc, length (map f sol) = length ts) by (intros f; rewrite map_length; exact Hl).
+  assert (Row : forall i, (i < length go)%nat ->
+            nth i m [] = it ts (map (fun level => nth i (ix gs level go) 0) sol) to).
+  { intros i Hi. unfold m, tensor_interp. apply (nth_map_seq (fun i0 => it ts (map (fun level => nth i0 (ix gs level go) 0) sol) to)). exact Hi. }
+  assert (Ser : forall i a x, nth_error go i = Some x -> nth_error gs a = Some x ->
+            map (fun level => nth i (ix gs level go) 0) sol = map (fun level => nth a level 0) sol).
+  { intros i a x Hi Ha. apply map_ext_in. intros level Hin. rewrite Forall_forall in Hw.
+    destruct (Hx gs level go (Hw level Hin)) as [_ Hn]. apply (Hn i a x Hi Ha). }
+  assert (Col : forall i j b t, (i < length go)%nat -> nth_error to j = Some t -> nth_error ts b = Some t ->
+            nth j (nth i m []) 0 = nth i (ix gs (nth b sol []) go) 0).
+  { intros i j b t Hi Hj Hb. rewrite (Row i Hi).
+    destruct (Ht ts (map (fun level => nth i (ix gs level go) 0) sol) to (Lser _)) as [_ Hn].
+    rewrite (Hn j b t Hj Hb).
+    assert (Hbl : (b < length sol)%nat) by (rewrite Hl; apply (nth_error_lt _ _ _ Hb)).
+    rewrite (nth_indep _ 0 ((fun level => nth i (ix gs level go) 0) [])) by (rewrite map_length; exact Hbl).
+    rewrite (map_nth (fun level => nth i (ix gs level go) 0) sol [] b). reflexivity. }
+  split; [unfold m, tensor_interp; rewrite map_length, seq_length; reflexivity|].
+  split; [|split; [exact Col|]].
+  - intros i a x Hi Ha. rewrite (Row i (nth_error_lt _ _ _ Hi)). rewrite (Ser i a x Hi Ha). reflexivity.
+  - intros i j a b x t Hi Ha Hj Hb. rewrite (Col i j b t (nth_error_lt _ _ _ Hi) Hj Hb).
+    assert (Hbl : (b < length sol)%nat) by (rewrite Hl; apply (nth_error_lt _ _ _ Hb)).
+    assert (Hin : In (nth b sol []) sol) by (apply nth_In; exact Hbl).
+    rewrite Forall_forall in Hw. destruct (Hx gs (nth b sol []) go (Hw _ Hin)) as [_ Hn]. apply (Hn i a x Hi Ha).
+Qed.
 
 (* an interpolant that is exact at the nodes returns, at coinciding nodes and times, the stored values *)
 Definition exact_at_nodes (interp2 : qv -> qv -> list qv -> qv -> qv -> res qm) : Prop :=
@@ -323,17 +509,32 @@ Definition exact_at_nodes (interp2 : qv -> qv -> list qv -> qv -> qv -> res qm) 
 
 Theorem observe_interp_nodes Q interp2 G gs go times tobs levels m :
   exact_at_nodes interp2 ->
-  g_eq G && time_test Q times tobs = false -> g_sol G = Some gs -> g_obs G = Some go ->
+  g_eq G && time_test Q times tobs = false -> coincide_restriction Q G times tobs levels = None ->
+  g_sol G = Some gs -> g_obs G = Some go ->
   interp2 gs times levels go tobs = Ok m -> (length tobs <> 1)%nat ->
   td_observe Q None interp2 G times tobs levels = Ok (true, A2 m) /\
   forall i j a b, nth_error go i = nth_error gs a -> nth_error go i <> None ->
                   nth_error tobs j = nth_error times b -> nth_error tobs j <> None ->
                   nth j (nth i m []) 0 = nth a (nth b levels []) 0.
 Proof.
-  intros Hex Hb Hs Ho Hm Hl. split.
-  - rewrite (observe_interp Q None interp2 G gs go times tobs levels Hb Hs Ho). rewrite Hm. simpl.
+  intros Hex Hb Hc Hs Ho Hm Hl. split.
+  - rewrite (observe_interp_general Q None interp2 G gs go times tobs levels Hb Hc Hs Ho). rewrite Hm. simpl.
     destruct (length tobs =? 1)%nat eqn:E; [apply Nat.eqb_eq in E; contradiction | reflexivity].
   - intros i j a b. apply (Hex _ _ _ _ _ _ Hm).
+Qed.
+
+(* the tensor-product interpolant is exact at the nodes in that sense *)
+Theorem tensor_exact_at_nodes ix it :
+  exact1 ix -> exact1 it ->
+  forall gs ts sol go to, length sol = length ts -> Forall (fun level => length level = length gs) sol ->
+  forall i j a b, nth_error go i = nth_error gs a -> nth_error go i <> None ->
+                  nth_error to j = nth_error ts b -> nth_error to j <> None ->
+                  nth j (nth i (tensor_interp ix it gs ts sol go to) []) 0 = nth a (nth b sol []) 0.
+Proof.
+  intros Hx Ht gs ts sol go to Hl Hw i j a b Hi Hin Hj Hjn.
+  destruct (nth_error go i) as [x|] eqn:Ex; [|congruence]. destruct (nth_error to j) as [t|] eqn:Et; [|congruence].
+  destruct (tensor_interp_nodes ix it gs ts sol go to Hx Ht Hl Hw) as [_ [_ [_ H]]].
+  apply (H i j a b x t Ex (eq_sym Hi) Et (eq_sym Hj)).
 Qed.
 
 (* the pipeline PDEModel._forward_func = observe o solve o assemble; the parameter left in the object by an
@@ -477,11 +678,12 @@ Qed.
 (* a request whose nodes and times all coincide with solution nodes and time steps, but which is not (equal grids,
    final time), is answered by the interpolation routine -- and scipy's refuses grids with fewer than 4 points *)
 Theorem observe_coinciding_refuted Q (interp2 : qv -> qv -> list qv -> qv -> qv -> res qm) g t0 t1 t2 levels :
+  q_spline_route Q = true ->
   (forall gs ts sol go to, (length ts < 4)%nat -> interp2 gs ts sol go to = Er EOther) ->
   t0 <> t2 \/ t1 <> t2 ->
   td_observe Q None interp2 (init_grids (Some g) None) [t0; t1; t2] [t0; t1; t2] levels = Er EOther.
 Proof.
-  intros Hi Hne. unfold td_observe.
+  intros Hq Hi Hne. unfold td_observe. rewrite (coincide_none_code Q _ _ _ _ Hq).
   assert (Ht : time_test Q [t0; t1; t2] [t0; t1; t2] = false).
   { unfold time_test. cbn [last_opt]. destruct (q_tobs_all Q).
     - cbn [forallb]. destruct (qc_eqb t2 t0) eqn:E0; [|reflexivity]. destruct (qc_eqb t2 t1) eqn:E1; [|reflexivity].
@@ -539,19 +741,29 @@ Proof.
   - intros gs go. exact (ss_observe_interp obsmap interp1 G gs go sol).
 Qed.
 
-(* corollary: with a solver that is exact on every system it is handed, all levels satisfy the implicit recurrence *)
+(* corollary: if the solver's answer obeys its law on every call that is actually made, all levels satisfy the implicit
+   recurrence (the hypothesis speaks about the calls of this run only: it is satisfiable whenever the step operators
+   are invertible -- see C18_example) *)
+Definition be_law_on_calls (P I : Type) (solver : nat -> qm -> qv -> sret I) (form : P -> Qc -> qm * qv * qv)
+           (p : P) (times : qv) (levels : list qv) : Prop :=
+  forall k, (S k < length times)%nat ->
+    let dt := (nth (S k) times 0 - nth k times 0)%Qc in
+    let M := be_M P form p (nth (S k) times 0) (nth k levels []) dt in
+    let r := be_r P form p (nth (S k) times 0) (nth k levels []) dt in
+    qmatvec M (sret_sol (solver k M r)) = r.
+
 Theorem backward_euler_exact_solver (P I : Type) (solver : nat -> qm -> qv -> sret I) (form : P -> Qc -> qm * qv * qv)
         (Q : quirks) (p : P) (times : qv) (levels : list qv) (info : option (list I)) :
-  (forall k M r, qmatvec M (sret_sol (solver k M r)) = r) ->
   td_solve P I solver form Q MBwd (Some p) times = Ok (levels, info) ->
+  be_law_on_calls P I solver form p times levels ->
   forall k, (S k < length times)%nat ->
     let dt := (nth (S k) times 0 - nth k times 0)%Qc in
     qvsub (nth (S k) levels []) (qvscale dt (qmatvec (fA P form p (nth (S k) times 0)) (nth (S k) levels [])))
-      = qvadd (nth k levels []) (qvscale dt (fb P form p (nth (S k) times 0))).
+      = qvadd (nth k levels []) (qvscale dt (fbn P form p (nth (S k) times 0) (length (nth 0 levels [])))).
 Proof.
-  intros Hex H k Hk.
+  intros H Hex k Hk.
   destruct (backward_euler P I solver form Q p times levels info H) as [_ [_ Hall]].
-  specialize (Hall k Hk). cbn zeta in Hall. destruct Hall as [_ [_ Hrec]]. cbn zeta. apply Hrec. apply Hex.
+  specialize (Hall k Hk). cbn zeta in Hall. destruct Hall as [_ [_ [_ [_ [_ Hrec]]]]]. cbn zeta. apply Hrec. apply (Hex k Hk).
 Qed.
 
 (* a single observation time through the interpolation route: the (n_obs, 1) array is squeezed to the vector *)
